@@ -90,6 +90,12 @@ def build_seed(k):
         h.apply({'op': 'add_fp', 'cid': 701, 'length': 5000, 'data': boot_blob(5000), 'iso_path': '/BOOT2.;1',
                  **({'rr_name': 'boot2'} if cfg.rr else {}), **({'joliet_path': '/boot2'} if cfg.joliet else {}), **({'udf_path': '/boot2'} if cfg.udf else {})})
         h.apply({'op': 'add_eltorito', 'bootfile_path': '/BOOT2.;1', 'platform_id': 0xef, 'efi': True})
+        if k == 4:
+            # further sections: several section headers, the last one marked final
+            for j, plat in enumerate([0, 0xef, 1]):
+                h.apply({'op': 'add_fp', 'cid': 710 + j, 'length': 2048, 'data': boot_blob(2048), 'iso_path': '/BOOTX%d.;1' % j,
+                         **({'rr_name': 'bootx%d' % j} if cfg.rr else {})})
+                h.apply({'op': 'add_eltorito', 'bootfile_path': '/BOOTX%d.;1' % j, 'platform_id': plat})
         if k == 5:
             h.apply({'op': 'add_isohybrid', 'efi': True})
     img, oc = h.sess.write()
@@ -114,7 +120,14 @@ def build_seed(k):
         if kind.endswith('-data'):
             continue
         ranges.append((kind, s, min(e, len(data))))
-    ranges.append(('system-area', 0, 32768) if dec['hybrid'].present else ('vd-area', 32768, 32768))
+    if dec['hybrid'].present:
+        # the system area by sub-structure (fixed positions of the isohybrid layout), and the backup GPT
+        ranges += [('mbr', 0, 512), ('mbr-partitions', 440, 512), ('gpt-header', 512, 604), ('gpt-entries', 1024, 1024 + 4 * 128),
+                   ('apm', 2048, 2048 + 3 * 2048), ('system-area', 0, 32768)]
+        n_ = len(data)
+        ranges += [('gpt-backup-header', n_ - 512, n_ - 512 + 92), ('gpt-backup-entries', n_ - 33 * 512, n_ - 33 * 512 + 4 * 128)]
+    else:
+        ranges.append(('vd-area', 32768, 32768))
     ranges = [r for r in ranges if r[2] > r[1]]
     return ('seed%d:%r' % (k, cfg), data, ranges)
 
@@ -126,7 +139,15 @@ def seed(k):
 
 
 NSEEDS = 9
-VALUES = ['zero', 'one', 'max', 'max-1', 'sign', 'self', 'other', 'beyond', 'flip']
+VALUES = ['zero', 'one', 'max', 'max-1', 'sign', 'self', 'other', 'beyond', 'flip', 'inc', 'dec']
+
+
+def pick_range(rng, ranges):
+    """A structure kind first (so that the one boot catalog competes equally with hundreds of
+    directory sectors), then one range of that kind."""
+    kinds = sorted({r[0] for r in ranges})
+    k = rng.choice(kinds)
+    return rng.choice([r for r in ranges if r[0] == k])
 
 
 def make_fault(rng, data, ranges):
@@ -135,18 +156,18 @@ def make_fault(rng, data, ranges):
     kind = rng.choices(['field', 'field', 'field', 'field', 'trunc', 'random', 'swap', 'zero-sector'], [40, 20, 10, 10, 8, 6, 3, 3])[0]
     b = bytearray(data)
     if kind == 'trunc':
-        r = rng.choice(ranges)
+        r = pick_range(rng, ranges) if rng.random() < 0.7 else rng.choice(ranges)
         cut = rng.choice([r[1], r[2], rng.randint(r[1], r[2]), (rng.randint(0, n) // 2048) * 2048, rng.randint(0, n), 32768, 34816, 16 * 2048 + rng.randint(0, 4096)])
         cut = max(0, min(n, cut))
         return bytes(b[:cut]), {'fault': 'trunc', 'at': cut, 'structure': r[0]}
     if kind == 'random':
-        r = rng.choice(ranges)
+        r = pick_range(rng, ranges) if rng.random() < 0.7 else rng.choice(ranges)
         for _ in range(rng.choice([1, 2, 4, 16])):
             off = rng.randint(r[1], r[2] - 1)
             b[off] = rng.randint(0, 255)
         return bytes(b), {'fault': 'random', 'structure': r[0]}
     if kind == 'swap':
-        r1, r2 = rng.choice(ranges), rng.choice(ranges)
+        r1, r2 = pick_range(rng, ranges), pick_range(rng, ranges)
         s1, s2 = (r1[1] // 2048) * 2048, (r2[1] // 2048) * 2048
         if rng.random() < 0.5:
             b[s1:s1 + 2048], b[s2:s2 + 2048] = b[s2:s2 + 2048], b[s1:s1 + 2048]
@@ -154,13 +175,13 @@ def make_fault(rng, data, ranges):
         b[s1:s1 + 2048] = b[s2:s2 + 2048]
         return bytes(b), {'fault': 'dup-sector', 'structure': r2[0] + '->' + r1[0]}
     if kind == 'zero-sector':
-        r = rng.choice(ranges)
+        r = pick_range(rng, ranges) if rng.random() < 0.7 else rng.choice(ranges)
         s = ((rng.randint(r[1], r[2] - 1)) // 2048) * 2048
         b[s:s + 2048] = b'\x00' * 2048
         return bytes(b), {'fault': 'zero-sector', 'structure': r[0]}
     # field corruption inside a structural range, biased to bytes that are used
-    r = rng.choice(ranges)
-    for _ in range(8):
+    r = pick_range(rng, ranges) if rng.random() < 0.7 else rng.choice(ranges)
+    for _ in range(16):
         off = rng.randint(r[1], r[2] - 1)
         if b[off] != 0 or rng.random() < 0.2:
             break
@@ -172,7 +193,12 @@ def make_fault(rng, data, ranges):
     be = rng.random() < 0.3
     bits = 8 * min(width, 4)
     v = {'zero': 0, 'one': 1, 'max': (1 << bits) - 1, 'max-1': (1 << bits) - 2, 'sign': 1 << (bits - 1), 'self': sector_self & ((1 << bits) - 1),
-         'other': other & ((1 << bits) - 1), 'beyond': ((n // 2048) + rng.choice([0, 1, 1000])) & ((1 << bits) - 1), 'flip': None}[val]
+         'other': other & ((1 << bits) - 1), 'beyond': ((n // 2048) + rng.choice([0, 1, 1000])) & ((1 << bits) - 1), 'flip': None,
+         'inc': None, 'dec': None}[val]
+    if val in ('inc', 'dec'):
+        w = min(width, 4)
+        cur = int.from_bytes(b[off:off + w], 'big' if be else 'little')
+        v = (cur + (1 if val == 'inc' else -1)) & ((1 << (8 * w)) - 1)
     if v is None:
         b[off] ^= 1 << rng.randint(0, 7)
     elif width == 8:
